@@ -48,3 +48,19 @@ type WG1 struct {
 	X string `valid:"either=7"`
 	A int    `valid:"botheq=8"`
 }
+
+// more group shapes: an int-keyed map of objects (entries named MI[3], MI[4]), a botheq group of four
+// members, and botheq groups over kinds that are not comparable with == (slices, maps)
+type WGS2 struct {
+	MI map[int]WG        `valid:"exist"`
+	A  int               `valid:"botheq=3"`
+	B  int               `valid:"botheq=3"`
+	C  int               `valid:"botheq=3"`
+	D  int               `valid:"botheq=3"`
+	S1 []string          `valid:"botheq=4"`
+	S2 []string          `valid:"botheq=4"`
+	M1 map[string]int    `valid:"botheq=5"`
+	M2 map[string]int    `valid:"botheq=5"`
+	E1 WG1               `valid:"botheq=6"`
+	E2 WG1               `valid:"botheq=6"`
+}
